@@ -230,12 +230,17 @@ theorem eval_children (dones : Dones) (id f nc nt : Nat) (best : Option Rat) (on
   · by_cases ho : (onBest.call dones (.step num) x.pop.2).ok = true <;> simp [hb, ho, Cb.bests]
   · simp [hb, Cb.bests]
 
-/-- The evaluation callback forwards training-start and locals to its after-eval child
-(the `_partial` half of "evaluation callbacks forward events to their children"; see
-`eval_best_child_not_forwarded_counterexample` for the other child). -/
-theorem eval_forwards_partial (dones : Dones) (id f nc nt : Nat) (best : Option Rat) (onBest after : Cb) (x : Ext)
+/-- **The evaluation callback forwards training-start and locals to both children** (after-eval child
+first, then the on-new-best child), and — being an event callback — forwards neither rollout
+start/end nor training end. (Full statement since the fix `4379697`; before it the on-new-best child
+received neither event, finding K-C13-b.) -/
+theorem eval_forwards (dones : Dones) (id f nc nt : Nat) (best : Option Rat) (onBest after : Cb) (x : Ext)
     (c : Call) (hc : (∃ n, c = .trainingStart n) ∨ (∃ g, c = .updateLocals g)) :
-    ((Cb.eval id f nc nt best onBest after).call dones c x).evs = (after.call dones c x).evs := by
+    ((Cb.eval id f nc nt best onBest after).call dones c x).evs =
+        (after.call dones c x).evs ++ (onBest.call dones c (after.call dones c x).ext).evs ∧
+    ((Cb.eval id f nc nt best onBest after).call dones .rolloutStart x).evs = [] ∧
+    ((Cb.eval id f nc nt best onBest after).call dones .rolloutEnd x).evs = [] ∧
+    ((Cb.eval id f nc nt best onBest after).call dones .trainingEnd x).evs = [] := by
   rcases hc with ⟨n, rfl⟩ | ⟨g, rfl⟩ <;> simp [Cb.call]
 
 /-! ### EveryNTimesteps cadence, including `learn()` calls that reset the counter -/
@@ -307,34 +312,31 @@ theorem everyN_second_learn (dones : Dones) (id n d cid : Nat) (st : List Nat) (
     rw [Nat.min_eq_left g2] at h2
     exact ⟨h2.1, by simpa using h2.2.2.1⟩
 
-/-! ### Finding K-C13-b: `EvalCallback` does not forward training-start / locals to `callback_on_new_best` -/
+/-! ### The on-new-best child after the fix of K-C13-b (commit 4379697) -/
 
-/-- Full-strength forwarding ("evaluation callbacks forward events to their children") is **false of the
-code** for the on-new-best child: it never receives `on_training_start` nor `update_locals`, so at its
-step events its `locals` describe no step (`loc = 0` although environment step 1 was just made), while
-the after-eval child of the same evaluation sees `loc = 1`. Witness: `EvalCallback(eval_freq=1)` with two
-recording children, one `learn` prefix `trainingStart 0, updateLocals 1, step 1`. -/
-theorem eval_best_child_not_forwarded_counterexample :
-    Cb.events (fun _ => 0) (.eval 0 1 0 0 none (.leaf 1 [] 0 0 0) (.leaf 2 [] 0 0 0)) { evals := [1] }
-        [.trainingStart 0, .updateLocals 1, .step 1] =
-      [⟨2, .trainingStart, 0, 0, 0, true⟩, ⟨0, .evalRun, 1, 1, 0, true⟩,
-       ⟨1, .step, 1, 1, 0, true⟩, ⟨2, .step, 1, 1, 1, true⟩] := by
-  decide
+/-- **An `EveryNTimesteps` used as `callback_on_new_best` is re-armed by a `learn()` that resets the
+counter**: for every stale `last_time_trigger`, after the evaluation callback received
+`trainingStart 0` the inner node's `last_time_trigger` is `0` again. -/
+theorem everyN_under_new_best_rearmed (dones : Dones) (id f nc nt : Nat) (best : Option Rat) (after : Cb) (x : Ext)
+    (eid n last enc ent : Nat) (ch : Cb) :
+    ∃ nt' enc' ent' ch' after', ((Cb.eval id f nc nt best (.everyN eid n last enc ent ch) after).call dones
+        (.trainingStart 0) x).cb = .eval id f nc nt' best (.everyN eid n 0 enc' ent' ch') after' := by
+  exact ⟨0, enc, 0, (ch.call dones (.trainingStart 0) (after.call dones (.trainingStart 0) x).ext).cb,
+    (after.call dones (.trainingStart 0) x).cb, by simp [Cb.call]⟩
 
-/-- Consequence: a `StopTrainingOnMaxEpisodes` used as `callback_on_new_best` has no `dones` in its
-locals — the code fails its assertion (`fail = true` in the model). -/
-theorem maxEp_under_new_best_fails_counterexample :
-    (Run.feedAll (fun _ => 0) { cb := .eval 0 1 0 0 none (.maxEp 1 2 0 0 0 0) .absent, ext := { evals := [1] } }
-        [.trainingStart 0, .updateLocals 1, .step 1]).fail = true := by
-  decide
-
-/-- Consequence: an `EveryNTimesteps` used as `callback_on_new_best` is not re-armed by a `learn()` that
-resets the counter (it never sees training start): with a stale `last_time_trigger = 10` it stays silent
-at `num_timesteps = 3 ≥ n = 2` after the reset. -/
-theorem everyN_under_new_best_not_rearmed_counterexample :
-    stepTimes 2 (Cb.events (fun _ => 0) (.eval 0 1 0 0 none (.everyN 1 2 10 0 0 (.leaf 2 [] 0 0 0)) .absent)
-        { evals := [1] } [.trainingStart 0, .updateLocals 1, .step 3]) = [] := by
-  decide
+/-- **A user callback placed as `callback_on_new_best` reads the locals of the very step of the
+evaluation**: after `update_locals g` reached the evaluation callback, the step event the child records at
+the next new-best evaluation carries `loc = g`. -/
+theorem new_best_child_sees_step_locals (dones : Dones) (id nc nt : Nat) (after : Cb) (x : Ext)
+    (cid : Nat) (st : List Nat) (lnc lnt lloc g num : Nat) (m : Rat) (rest : List Rat)
+    (hafter : after = .absent) (hx : x.evals = m :: rest) :
+    let t1 := ((Cb.eval id 1 nc nt none (.leaf cid st lnc lnt lloc) after).call dones (.updateLocals g) x)
+    (t1.cb.call dones (.step num) t1.ext).evs =
+      [⟨id, .evalRun, nc + 1, num, 0, true⟩, ⟨cid, .step, lnc + 1, num, g, !st.contains (lnc + 1)⟩] := by
+  subst hafter
+  have hpop : x.pop.1 = m := by simp [Ext.pop, hx]
+  simp [Cb.call, evalDue, isNewBest]
+  cases h : !st.contains (lnc + 1) <;> simp_all
 
 /-! ### Non-vacuity: concrete, non-trivial instances -/
 
@@ -399,6 +401,20 @@ example : Cb.events (fun _ => 0) (.eval 0 2 0 0 none (.leaf 1 [2] 0 0 0) (.leaf 
 /-- `learn_terminates`' hypotheses: an A2C-like configuration (3 envs, rollouts of 5 steps) -/
 example : (0 : Nat) < 5 ∧ (0 : Nat) < ({ nEnvs := 3, onPolicy := true, kind := .steps 5, dones := fun _ => 0 } : Cfg).nEnvs := by
   decide
+
+/-- the on-new-best child now sees training start and the locals of the step (compare finding K-C13-b) -/
+example : Cb.events (fun _ => 0) (.eval 0 1 0 0 none (.leaf 1 [] 0 0 0) (.leaf 2 [] 0 0 0)) { evals := [1] }
+    [.trainingStart 0, .updateLocals 1, .step 1] =
+    [⟨2, .trainingStart, 0, 0, 0, true⟩, ⟨1, .trainingStart, 0, 0, 0, true⟩, ⟨0, .evalRun, 1, 1, 0, true⟩,
+     ⟨1, .step, 1, 1, 1, true⟩, ⟨2, .step, 1, 1, 1, true⟩] := by decide
+
+/-- StopTrainingOnMaxEpisodes as on-new-best child has `dones` in its locals: the code does not raise -/
+example : (Run.feedAll (fun _ => 0) { cb := .eval 0 1 0 0 none (.maxEp 1 2 0 0 0 0) .absent, ext := { evals := [1] } }
+    [.trainingStart 0, .updateLocals 1, .step 1]).fail = false := by decide
+
+/-- EveryNTimesteps(2) as on-new-best child with a stale trigger time 10: re-armed by the reset, fires at 3 -/
+example : stepTimes 2 (Cb.events (fun _ => 0) (.eval 0 1 0 0 none (.everyN 1 2 10 0 0 (.leaf 2 [] 0 0 0)) .absent)
+    { evals := [1] } [.trainingStart 0, .updateLocals 1, .step 3]) = [3] := by decide
 
 example : evalDue 2 (3 + 1) = true ∧ (3 : Nat) ∉ (Cb.leaf 1 [] 0 0 0).ids := by decide
 
